@@ -87,12 +87,19 @@ BASE_NS = {"eq": eq, "isnan": isnan, "isfinite": isfinite, "isinf": isinf, "bit"
            "bool": bool, "rint": lambda x: float(np.rint(x)), "array_of": None}
 
 
+_GHOST_MEMO = {}
+
+
 def array_of(f, *shape):
-    """ghost array of a specification: the array whose cells are f(i, j, ...)"""
-    out = np.empty(shape, dtype=np.float64)
-    for idx in np.ndindex(*[int(s) for s in shape]):
-        out[idx] = f(*idx)
-    return out
+    """ghost array of a specification: the array whose cells are f(i, j, ...).  Memoised for the duration of one contract
+    evaluation (the same lambda is met once per quantified pixel); run_contract clears the memo."""
+    key = (f.__code__, tuple(int(s) for s in shape), tuple(id(c.cell_contents) for c in (f.__closure__ or ())))
+    if key not in _GHOST_MEMO:
+        out = np.empty(shape, dtype=np.float64)
+        for idx in np.ndindex(*[int(s) for s in shape]):
+            out[idx] = f(*idx)
+        _GHOST_MEMO[key] = out
+    return _GHOST_MEMO[key]
 
 
 BASE_NS["array_of"] = array_of
@@ -221,6 +228,7 @@ def build_arg(ty, w):
 
 
 def run_contract(rt, cc, func, args_by_name, call=None):
+    _GHOST_MEMO.clear()
     """evaluate requires, call, evaluate ensures/raises.  -> dict(pre_ok, raised, violated:[clause names], result)"""
     ns = dict(rt.ns)
     ns.update(args_by_name)
